@@ -337,3 +337,63 @@ def far_loxodromics(tier, rng, rep):
         rep.case(key=(t,), nontrivial=D > 5, sample=inp if t == 0 else None)
         if len(rep.failures) >= 3:
             return
+
+
+@bounded(P, "walls_given_by_ideal_points", functions=[H + "Subspace.reflection_across", H + "Subspace._data_with_dual", H + "Subspace.spacelike_complement", H + "Geodesic.from_reflection",
+                                                       H + "Hyperplane.from_reflection"],
+         note="the wall is given by its ideal points (a geodesic of H^2 by two endpoints, a hyperplane of H^3 / H^4 as a Subspace on n ideal points), not by a normal, and does not pass "
+              "through the origin: the reflection is an involutive isometry fixing the ideal points and negating the Minkowski normal; recovering the wall returns the same wall")
+def walls_given_by_ideal_points(tier, rng, rep):
+    N = 150 if tier == 'thorough' else 30
+    rep.rule = "n = 2 (Geodesic and Subspace on 2 ideal points), n = 3, 4 (Subspace on n ideal points); arbitrary non-zero representatives; single walls and composites of 3"
+    rep.bound = f"{N} walls x 2 shapes"
+    for t in range(N):
+        n = 2 + t % 3
+        J = spec.J(n + 1)
+        for shape in ((), (3,)):
+            while True:          # ideal points in general position (well-conditioned wall): smallest singular value of the point matrix bounded below
+                ide = rng.normal(size=shape + (n, n)); ide /= np.linalg.norm(ide, axis=-1, keepdims=True)
+                full = np.concatenate([np.ones(shape + (n, 1)), ide], axis=-1)
+                if np.min(np.linalg.svd(full, compute_uv=False)) > 0.35:
+                    break
+            sc = rng.choice([1.0, 2.0, -1.5, 0.4], size=shape + (n, 1))
+            data = sc * np.concatenate([np.ones(shape + (n, 1)), ide], axis=-1)
+            kind = "Geodesic" if (n == 2 and t % 2 == 0) else "Subspace"
+            inp = {"n": n, "kind": kind, "shape": list(shape), "ideal_points": data.tolist()}
+
+            def body():
+                W = h.Geodesic(h.IdealPoint(data.copy())) if kind == "Geodesic" else h.Subspace(h.IdealPoint(data.copy()))
+                R = np.asarray(W.reflection_across().proj_data, dtype=float).reshape((-1, n + 1, n + 1))
+                D = data.reshape((-1, n, n + 1))
+                for j in range(len(R)):
+                    M = R[j]
+                    if not np.all(np.abs(M @ J @ M.T - J) <= 1e-6 * (1 + np.max(np.abs(M)) ** 2)):
+                        rep.fail("reflection_is_an_isometry", f"wall {j}: max |M J M^T - J| = {np.max(np.abs(M @ J @ M.T - J))}", inp); return
+                    if not np.all(np.abs(M @ M - np.eye(n + 1)) <= 1e-6 * (1 + np.max(np.abs(M)) ** 2)):
+                        rep.fail("reflection_involutive", f"wall {j}", inp); return
+                    img = D[j] @ M
+                    cr = img[:, :, None] * D[j][:, None, :]
+                    if not np.all(np.abs(cr - np.swapaxes(cr, -1, -2)) <= 1e-6 * max(1.0, np.max(np.abs(cr)))):
+                        rep.fail("reflection_fixes_the_wall", f"wall {j}: an ideal point of the wall is moved", inp); return
+                    # Minkowski normal of the wall, independently: kernel of D J
+                    nv = np.linalg.svd(D[j] @ J)[2][-1]
+                    if not np.all(np.abs(nv @ M + nv) <= 1e-6 * (1 + np.max(np.abs(M)))):
+                        rep.fail("reflection_negates_normal", f"wall {j}: the Minkowski normal {nv.tolist()} is sent to {(nv @ M).tolist()}", inp); return
+                    if np.linalg.det(M) > 0:
+                        rep.fail("reflection_orientation_reversing", f"wall {j}", inp); return
+                    Hb = h.Hyperplane.from_reflection(h.Isometry(M.copy())).flatten_to_unit()[0]
+                    cr2 = np.outer(np.asarray(Hb.spacelike_vector, dtype=float), nv)
+                    if not np.all(np.abs(cr2 - cr2.T) <= 1e-6 * max(1.0, np.max(np.abs(cr2)))):
+                        rep.fail("from_reflection_recovers_wall", f"wall {j}", inp); return
+                    if n == 2:
+                        e = np.asarray(h.Geodesic.from_reflection(h.Isometry(M.copy())).proj_data, dtype=float).reshape(-1, 3)
+                        if not np.all(np.abs(e @ J @ nv) <= 1e-6 * (1 + np.max(np.abs(e)))):
+                            rep.fail("geodesic_from_reflection", f"wall {j}: the recovered endpoints are not on the wall", inp); return
+                sc_ = np.asarray(W.spacelike_complement().proj_data, dtype=float).reshape((len(R), -1, n + 1))
+                for j in range(len(R)):
+                    if not np.all(np.abs(sc_[j] @ J @ D[j].T) <= 1e-6 * (1 + np.max(np.abs(sc_[j])) * np.max(np.abs(D[j])))):
+                        rep.fail("spacelike_complement_orthogonal", f"wall {j}", inp); return
+            rep.attempt("reflection_roundtrip_runs", inp, body)
+            rep.case(key=(t, shape), nontrivial=True, sample=inp if (t, shape) == (0, ()) else None)
+            if len(rep.failures) >= 3:
+                return
